@@ -6,7 +6,9 @@ from .lang import close_refs, cond_refs, cond_terms, query_refs, term_refs, walk
 
 def _written_vars(ir, c):
     """variable set of a condition as the user wrote it (flatten nodes count through their source)"""
-    return frozenset(close_refs(ir, cond_refs(c)))
+    # the engine decides between else-if and union on the query *variables* of the operands; a flatten node is not a
+    # variable, it counts through the variables of its source
+    return frozenset(r for r in close_refs(ir, cond_refs(c)) if r[0] == "var")
 
 
 def filtered_domain_size(ir, i):
@@ -31,10 +33,27 @@ def _has_pred(c):
     return any(n["c"] in ("pred", "symfn", "hastype") for n in walk_conds(c))
 
 
+def or_chain(ir, c):
+    """or_(x1, .., xn) is built as a left-nested chain of binary nodes; per step: (is_union, quantifier_inside)"""
+    steps = []
+    acc_vars = _written_vars(ir, c["xs"][0])
+    acc_q = _has_quantifier(c["xs"][0])
+    for x in c["xs"][1:]:
+        v = _written_vars(ir, x)
+        q = _has_quantifier(x)
+        steps.append((acc_vars != v, acc_q or q))
+        acc_vars = acc_vars | v
+        acc_q = acc_q or q
+    return steps
+
+
+def _has_quantifier(c):
+    return any(n["c"] in ("exists", "forall") for n in walk_conds(c))
+
+
 def or_is_union(ir, c):
-    """or_ whose operands are written over different variable sets"""
-    sets = [_written_vars(ir, x) for x in c["xs"]]
-    return any(s != sets[0] for s in sets[1:])
+    """some binary step of the or_ chain combines operands written over different variable sets"""
+    return any(u for u, _ in or_chain(ir, c))
 
 
 def _falsy_literal_terms(c):
@@ -65,7 +84,9 @@ def query_features(ir):
                 f.add("or_union")
             elif any(_has_pred(x) for x in n["xs"]):
                 f.add("or_same_vars_with_predicate")
-            if any(q["c"] in ("exists", "forall") for q in walk_conds(n)):
+            if any((not u) and q for u, q in or_chain(ir, n)):
+                # only the else-if form (operands written over the same variables) loses the other operand when a
+                # quantifier yields nothing; the union form evaluates both sides
                 f.add("quantifier_in_or")
         if k == "not":
             inner = list(walk_conds(n["x"]))
